@@ -17,8 +17,8 @@ for f in ('patch.diff', 'demo.py', 'notes.md'):
         shutil.copy(os.path.join(src, f), os.path.join(dst, f))
 wt = tempfile.mkdtemp(prefix='vf-seed-', dir='/var/tmp')
 os.rmdir(wt)
-subprocess.run(['git', '-C', '/repo', 'worktree', 'add', '-q', '--detach', wt, 'HEAD'], check=True)
-meta = {'property': prop, 'name': name, 'repo_head': subprocess.run(['git', '-C', '/repo', 'rev-parse', '--short', 'HEAD'], capture_output=True, text=True).stdout.strip()}
+subprocess.run(['git', '-C', '/repo', 'worktree', 'add', '-q', '--detach', wt, os.environ.get('SEED_BASE', 'HEAD')], check=True)     # SEED_BASE: the commit the agent worked on
+meta = {'property': prop, 'name': name, 'seed_base': os.environ.get('SEED_BASE', 'HEAD'), 'repo_head': subprocess.run(['git', '-C', '/repo', 'rev-parse', '--short', 'HEAD'], capture_output=True, text=True).stdout.strip()}
 env = dict(os.environ, PYTHONPATH=f'{wt}/src', PYTHONHASHSEED='0', MPLBACKEND='Agg')
 env.pop('GEOPHIRES_X_VERIF', None)
 
